@@ -416,6 +416,33 @@ def run(prog, rep, tier):
         rep.violation(R187, "s4::recv_many_chan|untimed-select-under-read-guard", "the coordinator blocks in Select::select() (line %d) without a time limit while holding the channel registry's read guard, and the Ctrl-C handler "
                       "needs that registry's write lock; an interrupt during a long extraction or search takes effect only when the next message arrives (600 MB .evtx.xz: exit 4.2 s after SIGINT, i.e. when extraction is finished)" % untimed[0].line)
 
+    # ------------------------------------------------------------ R18.9 a listed temporary file leaves the list only by its own path
+    # The list of temporary files is shared by all worker threads; its order is the order in which the
+    # threads happened to register.  An entry may leave it only through an operation that names the entry
+    # (equality with a path), never by position (pop_back / pop_front / split_off / clear outside the
+    # signal handler): "the last entry" belongs to whichever thread registered last, so a positional
+    # removal un-lists another, still living source's file and an interrupt then leaves it behind.
+    R189 = rep.rule("R18.9", "outside the signal handler the temp-file list only grows, or shrinks by path equality")
+    POSITIONAL = ("pop_back", "pop_front", "clear", "split_off", "truncate", "drain", "pop", "remove", "swap_remove", "append")
+    n189 = 0
+    for rb_ in prog.bodies():
+        if not (rb_.path.startswith("s4::") or rb_.path.startswith("s4lib::") or rb_.path.startswith("<s4lib::")) or "_tests" in rb_.path:
+            continue
+        for c in rb_.live_calls():
+            if "LinkedList::<std::string::String>" not in c.f and "LinkedList<std::string::String>" not in (c.callee.get("self") or ""):
+                continue
+            nm_ = c.d.split("::")[-1]
+            if nm_ in ("new", "iter", "len", "is_empty", "deref", "deref_mut", "borrow_mut", "write", "read", "get", "contains", "front", "back") or "RwLock" in c.d or "Guard" in c.f or "Lazy" in c.f or "fmt" in c.d or "mem::" in c.d:
+                continue
+            n189 += 1
+            in_handler = rb_.path.startswith("s4::set_signal_handler")
+            rep.examined(R189, "%s|%s" % (rb_.path, nm_), sample={"function": rb_.path, "line": c.line, "operation": nm_, "in_signal_handler": in_handler})
+            if nm_ in POSITIONAL and not in_handler:
+                rep.violation(R189, "%s|positional-removal|%s" % (rb_.path, nm_), "%s (line %d) removes an entry from the shared list of temporary files by position (%s); entries are in registration order of concurrently running threads, "
+                              "so this can un-list the file of another source that is still being read - an interrupt then leaves that file behind" % (rb_.path, c.line, nm_))
+    if n189 < 1:
+        raise CheckerError("R18.9: no mutation of the LinkedList<String> registry found (anchor: push_back in decompress_to_ntf)")
+
     return rep.finish(
         "Static necessary-condition check of temporary-file cleanup: worker JoinHandles are kept and joined on every non-interrupted path out of "
         "processing_loop; the temporary file is created and listed inside the registry's write guard and the handler never releases that guard "
